@@ -34,7 +34,11 @@ try:
                         env=env, capture_output=True, text=True)
     lines = [l for l in pr.stdout.splitlines() if l.startswith('VIOLATION')]
     tail = pr.stdout.strip().splitlines()[-1:] if pr.stdout.strip() else [pr.stderr[-300:]]
-    verdict = 'DETECTED' if pr.returncode == 1 and lines else 'MISSED(exit %d)' % pr.returncode
+    if m.get('expect') == 'harmless':
+      verdict = 'DETECTED' if pr.returncode == 0 and not lines else 'FALSE-ALARM(exit %d)' % pr.returncode
+      verdict = verdict.replace('DETECTED', 'DETECTED-AS-HARMLESS')
+    else:
+      verdict = 'DETECTED' if pr.returncode == 1 and lines else 'MISSED(exit %d)' % pr.returncode
     out.append((m['name'], verdict, lines[:1], tail))
     print(m['name'], verdict, '%.0fs' % (time.time() - t0), (lines[:1] or tail)[0][:260], flush=True)
 finally:
